@@ -132,9 +132,20 @@ def rand_components(rng, present=None):
     return c
 
 
+def spell(scheme, caps):
+    """the scheme with the letters marked '1' in caps written in upper case (URI schemes are case-insensitive)"""
+    if not caps:
+        return scheme
+    return ''.join(ch.upper() if i < len(caps) and caps[i] == '1' else ch for i, ch in enumerate(scheme))
+
+
+def rand_caps(rng):
+    return rng.choice(['11111', '10000', '00001', '11110', ''.join(rng.choice('01') for _ in range(5))])
+
+
 def render(c, rng=None, extra_opts=()):
     """own renderer; rng=None gives the canonical text (the one Lean `render` must produce)"""
-    out = 'amqps://' if c['tls'] else 'amqp://'
+    out = spell('amqps' if c['tls'] else 'amqp', c.get('caps')) + '://'
     if c['user'] is not None or c['pass'] is not None:
         out += pct(c['user'] or '', rng, SUB_DELIMS)
         if c['pass'] is not None:
@@ -299,7 +310,7 @@ def check(rep):
     rep.rule = ('URIs rendered from components: credentials/vhost = random Unicode text (unreserved, every reserved character, '
                 'controls, 2/3/4-byte code points) percent-encoded by an own encoder (canonical; and variants: over-escaped, mixed-case hex, RFC 3986 sub-delims left raw in userinfo and vhost, colon raw in the password, colon and at-sign raw in the vhost); '
                 'host = name / IPv4 / bracketed IPv6 / omitted; port omitted or 1..65535 with boundaries; heartbeat/timeout options '
-                '(0-3, any order, duplicates) + unknown options; both schemes; the full lattice of 2^6 omission subsets x 2 schemes '
+                '(0-3, any order, duplicates) + unknown options; both schemes, in lower case and in random upper/mixed-case spellings; the full lattice of 2^6 omission subsets x 2 schemes '
                 'is always enumerated.  Plus a malformed stream (16 mutation kinds) for correspondence only.  distinct = distinct URI; '
                 'non-trivial = at least one component needs escaping, is omitted, or the URI is malformed')
     rep.assumptions = [
@@ -329,11 +340,17 @@ def check(rep):
                 c = rand_components(rng, dict(zip(names, bits)))
                 c['tls'] = tls
                 cases.append((render(c), c, 'lattice'))
-                cases.append((render(c, rng), c, 'lattice-variant'))
+                c2 = dict(c, caps=rand_caps(rng)) if rng.random() < 0.4 else c
+                cases.append((render(c2, rng), c2, 'lattice-variant'))
     n = 6000 if not thorough else 200000
     for i in range(n):
         c = rand_components(rng)
-        if i % 3 == 0:
+        if i % 3 != 0 and rng.random() < 0.3:
+            c['caps'] = rand_caps(rng)
+        if i % 3 == 0 and i % 12 == 0:
+            c['caps'] = rand_caps(rng)
+            cases.append((render(c), c, 'cased'))
+        elif i % 3 == 0:
             cases.append((render(c), c, 'canonical'))
         elif i % 3 == 1:
             cases.append((render(c, rng), c, 'variant'))
@@ -383,6 +400,14 @@ def check(rep):
             # Lean `render` == this file's canonical renderer (ties the theorem's domain to the generator's)
             lines.append('c18.render %d %s %s %s %s %s %s %s' % (
                 c['tls'], opt_cps(c['user']), opt_cps(c['pass']), c['hk'], opt_cps(c['host']),
+                '_' if c['port'] is None else c['port'], opt_cps(c['vhost']),
+                ','.join('%s%d' % kv for kv in c['opts']) or '-'))
+            expect.append(cps(uri))
+            meta.append({'render': uri, 'kind': label})
+        if c is not None and label == 'cased':
+            # Lean `renderCased` == this file's renderer with the scheme spelled as `caps` says
+            lines.append('c18.renderc %s %d %s %s %s %s %s %s %s' % (
+                c['caps'], c['tls'], opt_cps(c['user']), opt_cps(c['pass']), c['hk'], opt_cps(c['host']),
                 '_' if c['port'] is None else c['port'], opt_cps(c['vhost']),
                 ','.join('%s%d' % kv for kv in c['opts']) or '-'))
             expect.append(cps(uri))
